@@ -20,10 +20,10 @@ import (
 func init() {
 	Register(&Check{
 		Spec: core.Spec{ID: "C03", Level: "exploration",
-			Rule:        "case = generated scenario (blocks of widely varied sizes, all compressions, escapes/unicode/large and precise numbers/raw JSON) queried by 16-48 concurrent queries under -race (+checkptr) with PRNG delays at the tagged query schedule points, so pooled scan buffers of one size class are recycled between queries while consumers retain rows. Every returned row is compared (reflect.DeepEqual) with the encoding/json round trip of the ingested row when encoding/json can decode it, and fingerprinted at receipt; then the harness deep-mutates half of the retained rows (every string, number, nested map and slice element overwritten) and checks that every other retained row, and a re-query of the same data, still equal their fingerprints/expectations. Every third case adds 2-3 blocks of 450-800 rows and an early-termination phase: consumers take 1-700 rows of a condition-less/prefilter-only/field query, then Close, cancel+drain, cancel+Close or Close late from another goroutine, later complete queries re-draw the pooled buffers, and every row a consumer kept must still equal its fingerprint and the round trip. non-trivial = query that returned >= 1 row while another query was in flight; distinct = distinct (scenario, query index)",
+			Rule:        "case = generated scenario (blocks of widely varied sizes, all compressions, escapes/unicode/large and precise numbers/raw JSON) queried by 16-48 concurrent queries under -race (+checkptr) with PRNG delays at the tagged query schedule points, so pooled scan buffers of one size class are recycled between queries while consumers retain rows. Every returned row is compared (reflect.DeepEqual) with the encoding/json round trip of the ingested row when encoding/json can decode it, and fingerprinted at receipt; then the harness deep-mutates half of the retained rows (every string, number, nested map and slice element overwritten) and checks that every other retained row, and a re-query of the same data, still equal their fingerprints/expectations. Every fourth case adds 2 blocks of 420-620 rows and an early-termination phase: consumers take 1-700 rows of a condition-less/prefilter-only/field query, then Close, cancel+drain, cancel+Close or Close late from another goroutine, later complete queries re-draw the pooled buffers, and every row a consumer kept must still equal its fingerprint and the round trip. non-trivial = query that returned >= 1 row while another query was in flight; distinct = distinct (scenario, query index)",
 			Assumptions: []string{"rows whose marshaled form encoding/json cannot decode into a generic map (e.g. 1e400) are compared by identity of their _vid only"},
-			Floors:      map[string]int64{"rows_compared": 5000, "rows_mutated": 1000, "concurrent_queries": 150, "early_terminated_queries": 20, "rows_kept_across_early_termination": 1000}},
-		Cases:       func(t string) int { return nQueries(t, 24, 800) },
+			Floors:      map[string]int64{"rows_compared": 5000, "rows_mutated": 1000, "concurrent_queries": 150, "early_terminated_queries": 12, "rows_kept_across_early_termination": 600}},
+		Cases:       func(t string) int { return nQueries(t, 24, 400) },
 		Run:         runC03,
 		RaceMatters: true,
 	})
@@ -120,7 +120,7 @@ func runC03(rc *RunCtx, i int) {
 	// row batches before its scan ends and pooled scan buffers are re-drawn by
 	// later queries: the early-termination phase below needs both.
 	bigEng := -1
-	if i%3 == 1 {
+	if i%4 == 1 {
 		spec := c.w.Specs[0]
 		spec.Part = gen.PartFunc{Name: "const:big", Fn: func(map[string]any) string { return "big" }}
 		spec.Partition = "const:big"
@@ -134,9 +134,9 @@ func runC03(rc *RunCtx, i int) {
 		}
 		bigEng = ei
 		br := r.Split("bigrows")
-		for f := r.Range(2, 3); f > 0; f-- {
+		for f := 2; f > 0; f-- {
 			var batches [][]*world.RowRec
-			for left := r.Range(450, 800); left > 0; {
+			for left := r.Range(420, 620); left > 0; {
 				n := min(left, r.Range(40, 200))
 				var recs []*world.RowRec
 				for k := 0; k < n; k++ {
